@@ -21,7 +21,7 @@ import numpy as np
 import core
 import gen
 
-PROOF_MODULES = ["UnytProofs.C04", "UnytProofs.C04Programs", "UnytProofs.Real.C04Homog"]
+PROOF_MODULES = ["UnytProofs.C04", "UnytProofs.C04Programs", "UnytProofs.C04Buffers", "UnytProofs.Real.C04Homog"]
 EPS = 2.0 ** -52
 SLACK = 64 * EPS  # rounding of unit scales, conversion factors and simplification coefficients
 
@@ -1315,6 +1315,103 @@ def run(tier, seed):
         model_expect.append(("cancel", (s, lib)))
         chk.case(("model-cancel", s))
 
+    # ------------------------------------------------------------------ 3b. aliased calls (buffer discipline)
+    # The caller's arrays may share storage: `out=` a view of the first operand (or the operand itself: the in-place
+    # operators), `out=` the second operand, both operands views of one buffer written in different units, all three
+    # the same.  NumPy defines a ufunc call to behave as if there were no overlap, and the property quantifies over
+    # in-place / out= forms.  DIRECT ORACLE (never consults the model): the aliased call must return, and leave in
+    # `out`, what the same call on private copies returns, and must not change an operand that is not the out array.
+    # CORRESPONDENCE: the regenerated statement list run by the model at Float (`c04.bufrun`, the definitions
+    # `buffer_program_refines_value` is about) against the caller cells after the call.
+    alias_ops = [n for n in binary_names if X.get("ufuncRules", {}).get(n) in
+                 ("_preserve_units", "_difference_units", "_arctan2_unit", "_floor_divide_units", "_multiply_units", "_divide_units")
+                 and n not in ("matmul", "vecdot", "divmod", "clip", "heaviside", "ldexp")]
+    # placement of (first operand, second operand, out) in the caller's three cells; `same` = out IS that operand object
+    PLACEMENTS = [(0, 1, 2, None), (0, 1, 0, None), (0, 1, 0, "x"), (0, 1, 1, None), (0, 1, 1, "y"),
+                  (0, 0, 2, None), (0, 0, 0, None), (0, 0, 0, "x"), (0, 0, 0, "y"), (0, 1, None, None)]
+    plain_groups = [(n_, m_) for n_, m_ in groups if "affine" not in n_ and len(m_) >= 2]
+
+    def alias_snippet(name, us0, us1, cellvals, pl):
+        l0, l1, lo, same = pl
+        return ("import numpy as np, unyt\nfrom unyt import unyt_array, Unit\nnp.seterr(all='ignore')\n"
+                f"vals = {[list(map(float, c)) for c in cellvals]!r}\n"
+                "def mk(cells, i, u):\n    a = cells[i].view(unyt_array); a.units = Unit(u); return a\n"
+                "ref_cells = [np.array(v) for v in vals]; cells = [np.array(v) for v in vals]\n"
+                f"ref = np.{name}(mk(ref_cells, {l0}, {us0!r}).copy(), mk(ref_cells, {l1}, {us1!r}).copy())\n"
+                f"x = mk(cells, {l0}, {us0!r}); y = mk(cells, {l1}, {us1!r})\n"
+                + (f"o = {same}\n" if same else (f"o = mk(cells, {lo}, 'dimensionless')\n" if lo is not None else "o = None\n"))
+                + (f"r = np.{name}(x, y, out=o)\n" if lo is not None else f"r = np.{name}(x, y)\n")
+                + "def same(a, b):\n    return a.units == b.units and np.allclose(np.asarray(a.d), np.asarray(b.d), rtol=1e-12, atol=0, equal_nan=True)\n"
+                "assert same(r, ref), ('returned', r, 'expected', ref)\n"
+                + (f"assert same(o, ref), ('out holds', o, 'expected', ref)\n" if lo is not None else "")
+                + "".join(f"assert np.array_equal(cells[{i}], np.array(vals[{i}])), ('operand cell {i} changed', cells[{i}], vals[{i}])\n"
+                          for i in range(3) if i != lo))
+
+    def alias_case(name, us0, us1, pl):
+        l0, l1, lo, same = pl
+        u0, u1 = Unit(us0), Unit(us1)
+        cellvals = [np.array([rng.uniform(1.0, 9.0) * 10.0 ** rng.randint(-1, 1) for _ in range(3)]) for _ in range(3)]
+        cells = [c.copy() for c in cellvals]
+
+        def mk(cs, i, u):
+            a = cs[i].view(unyt_array)
+            a.units = u
+            return a
+        f = by_name[name]
+        try:
+            ref = f(mk(cellvals, l0, u0).copy(), mk(cellvals, l1, u1).copy())
+        except Exception:  # noqa: BLE001 (a refused pair: nothing to compare)
+            return
+        if isinstance(ref, tuple) or not hasattr(ref, "units") or np.asarray(ref).dtype.kind != "f":
+            return
+        x, y = mk(cells, l0, u0), mk(cells, l1, u1)
+        o = x if same == "x" else (y if same == "y" else (mk(cells, lo, Unit("dimensionless")) if lo is not None else None))
+        pname = f"x{l0}y{l1}o{'-' if lo is None else lo}{same or ''}"
+        chk.case(("alias", name, us0, us1, pname))
+        chk.count("alias:" + pname)
+        repl = {"python": alias_snippet(name, us0, us1, cellvals, pl), "call": f"np.{name}(<{us0}> in cell {l0}, <{us1}> in cell {l1}, out=cell {lo} {same or 'view'})"}
+        try:
+            r = f(x, y, out=o) if lo is not None else f(x, y)
+        except Exception as e:  # noqa: BLE001
+            chk.fail(f"{name}.alias|refused|{core.exc_name(e)}", f"{name}: call with shared storage ({pname}) raised {core.exc_name(e)} where the call on copies returns", repl)
+            return
+
+        def same_q(a, b):
+            return a.units == b.units and np.allclose(np.asarray(a.d), np.asarray(b.d), rtol=1e-12, atol=0, equal_nan=True)
+        if not same_q(r, ref) or (lo is not None and not same_q(o, ref)):
+            chk.fail(f"{name}.alias|si", f"{name}: with shared storage ({pname}: first operand in cell {l0}, second in cell {l1}, out in cell {lo}) "
+                     f"the call gives {r!r} (out: {o!r}), on private copies {ref!r}", repl)
+            return
+        for i in range(3):
+            if i != lo and not np.array_equal(cells[i], cellvals[i]):
+                chk.fail(f"{name}.alias|clobber", f"{name}: the call ({pname}) changed an operand that is not its out array: cell {i} {cellvals[i]} -> {cells[i]}", repl)
+                return
+        # the model on element 0 of every cell (for the kernels the driver evaluates itself)
+        if name not in ("add", "subtract", "multiply", "divide", "maximum", "fmax", "minimum", "fmin", "hypot", "floor_divide", "remainder", "arctan2"):
+            return
+        if name in ("floor_divide", "remainder") and l0 == l1:
+            # x // x-in-another-unit sits exactly on a jump of the floor: one ulp in the conversion factor decides
+            return
+        try:
+            f0 = ["q"] + wire_unit(u0) + ["0"]
+            f1 = ["q"] + wire_unit(u1) + ["0"]
+        except ValueError:
+            return
+        model_lines.append("\t".join(["c04.bufrun", name] + f0 + f1 + ["1" if lo is not None else "0", str(l0), str(l1), str(lo if lo is not None else 2)]
+                                     + [str(core.f2b(float(c[0]))) for c in cellvals]))
+        model_expect.append(("bufrun", (name, us0, us1, pname, lo, float(np.ravel(r.d)[0]), [float(c[0]) for c in cells])))
+
+    for name in alias_ops:
+        for _ in range(2 if tier == "quick" else 8):
+            gname, members = rng.choice(plain_groups)
+            us0, us1 = rng.sample(members, 2)
+            if rng.random() < 0.15:
+                us1 = us0
+            for pl in PLACEMENTS:
+                alias_case(name, us0, us1, pl)
+    model_lines.append("c04.bufcheck")
+    model_expect.append(("bufcheck", None))
+
     # ------------------------------------------------------------------ ask the model, compare
     try:
         replies = core.Model("drv_c04").ask(model_lines)
@@ -1335,6 +1432,16 @@ def run(tier, seed):
         return (core.close(core.b2f(rep[at + 1]), float(u.base_value), 1e-9) and rep[at + 3] == want[2]
                 and label(rep[at + 5]) == label(want[4])
                 and core.close(core.b2f(rep[at + 4]), core.b2f(want[3]), 1e-9))
+
+    try:
+        import json as _json
+        XB = _json.load(open(os.path.join(core.BUILD, "extract_c04_buffers.json"), encoding="utf-8"))
+    except Exception as e:  # noqa: BLE001
+        XB = {}
+        chk.disagree("translator", f"extract_c04_buffers.json unreadable: {e!r}")
+
+    def kernel_known(name):
+        return True
 
     def vclose(a, b, scale):
         if math.isnan(a) and math.isnan(b):
@@ -1424,6 +1531,27 @@ def run(tier, seed):
             got = rep[1] if rep[0] == "ok" else rep[1]
             if got != lib:
                 chk.disagree("c04.outfix", f"x[{us}] *= 2 {qs or ''} (coefficient {lib_mul}): model {rep[:2]} implementation {lib}")
+        elif kind == "bufcheck":
+            if rep[0] != "ok" or rep[1] != "true":
+                chk.disagree("c04.bufcheck", "the statement list regenerated from the two-input branch of __array_ufunc__ does not meet the buffer contract "
+                             "(theorem buffer_program_checked); first failing (conv, tdelta, post, hasOut, mulNe1, free0, free1, cell of first operand, "
+                             f"of second operand, of out): {rep[3:]}; statements: {XB.get('stmts')}")
+        elif kind == "bufrun":
+            name, us0, us1, pname, lo, lret, lcells = info
+            what = f"np.{name}(<{us0}>, <{us1}>) placement {pname}"
+            if rep[0] != "ok" or rep[1] != "false":
+                chk.disagree("c04.bufrun", f"{what}: model {rep[:2]} implementation returned {lret!r}")
+                continue
+            mret = core.b2f(rep[2]) if rep[2] != "-" else float("nan")
+            mcells = [core.b2f(c) if c != "-" else float("nan") for c in rep[3:6]]
+            sc = max(abs(v) for v in lcells) if name in ("add", "subtract", "remainder", "fmod", "nextafter") else 0.0
+            if kernel_known(name) and not vclose(mret, lret, sc):
+                chk.disagree("c04.bufrun", f"{what}: model returns {mret!r}, implementation {lret!r}")
+            for i in range(3):
+                if (i == lo and not kernel_known(name)):
+                    continue
+                if not vclose(mcells[i], lcells[i], sc if i == lo else 0.0):
+                    chk.disagree("c04.bufrun", f"{what}: caller cell {i} after the call: model {mcells[i]!r}, implementation {lcells[i]!r}")
         elif kind == "prog":
             desc, r, tol = info
             if rep[0] != "ok":
